@@ -19,6 +19,7 @@ import (
 
 	"github.com/quickfixgo/quickfix"
 	"github.com/quickfixgo/quickfix/config"
+	"github.com/quickfixgo/quickfix/log/screen"
 	filestore "github.com/quickfixgo/quickfix/store/file"
 
 	"verifharness/tr"
@@ -126,6 +127,13 @@ func freePort() int {
 	return l.Addr().(*net.TCPAddr).Port
 }
 
+func logFactory() quickfix.LogFactory {
+	if os.Getenv("VERIF_DEBUG") != "" {
+		return screen.NewLogFactory()
+	}
+	return quickfix.NewNullLogFactory()
+}
+
 func settingsFor(initiator bool, dir string, port int) *quickfix.Settings {
 	st := quickfix.NewSettings()
 	g := st.GlobalSettings()
@@ -172,7 +180,7 @@ func runOnce(runID int, seed int64, restarts bool) (tr.M, error) {
 	accPort := freePort()
 	accApp, iniApp := &app{}, &app{}
 	acc, err := quickfix.NewAcceptor(accApp, filestore.NewStoreFactory(settingsFor(false, filepath.Join(base, "acc"), accPort)),
-		settingsFor(false, filepath.Join(base, "acc"), accPort), quickfix.NewNullLogFactory())
+		settingsFor(false, filepath.Join(base, "acc"), accPort), logFactory())
 	if err != nil {
 		return nil, err
 	}
@@ -187,7 +195,7 @@ func runOnce(runID int, seed int64, restarts bool) (tr.M, error) {
 	defer px.close()
 	newIni := func() (*quickfix.Initiator, error) {
 		s := settingsFor(true, filepath.Join(base, "ini"), px.port())
-		ini, err := quickfix.NewInitiator(iniApp, filestore.NewStoreFactory(s), s, quickfix.NewNullLogFactory())
+		ini, err := quickfix.NewInitiator(iniApp, filestore.NewStoreFactory(s), s, logFactory())
 		if err != nil {
 			return nil, err
 		}
